@@ -1,7 +1,7 @@
 (* C03 -- source maps.  Per-rule map theorems proved so far (thematic break); the generic
    statement over the block loop is carried by the pipeline correspondence (maps are part of the
    compared token dicts) and the map checker on the implementation.  Only statements and [exact]. *)
-From MD Require Import Base.Py Base.Str Base.Opt Model.Token Model.Utils Model.StateBlock Model.Block Lemmas.BlockLemmas.
+From MD Require Import Base.Py Base.Str Base.Opt Model.Token Model.Utils Model.StateBlock Model.Block Lemmas.BlockLemmas Lemmas.ScanLemmas.
 
 Theorem C03_hr_map :
   forall cfg st startLine endLine st',
@@ -21,3 +21,15 @@ Theorem C03_line_scan_splits :
   forall n a s pos b, scan_loop n s pos (a ++ b) = scan_loop n (scan_loop n s pos a) (pos + len a) b.
 Proof. exact scan_loop_app. Qed.
 Print Assumptions C03_line_scan_splits.
+
+(* the line tables of a fresh StateBlock, for every source: five lists of length lineMax + 1, and
+   every row satisfies  0 <= bMarks <= bMarks + tShift <= eMarks <= len src , 0 <= sCount  -- the
+   ranges from which every map and every content slice is computed *)
+Theorem C03_line_tables_well_formed :
+  forall src env toks,
+    let s := state_init src env toks in
+    len (b_bMarks s) = b_lineMax s + 1 /\ len (b_eMarks s) = b_lineMax s + 1 /\ len (b_tShift s) = b_lineMax s + 1
+    /\ len (b_sCount s) = b_lineMax s + 1 /\ len (b_bsCount s) = b_lineMax s + 1 /\ 0 <= b_lineMax s
+    /\ rows_ok (len src) (rev (b_bMarks s)) (rev (b_eMarks s)) (rev (b_tShift s)) (rev (b_sCount s)).
+Proof. exact state_init_tables. Qed.
+Print Assumptions C03_line_tables_well_formed.
